@@ -23,6 +23,48 @@ META = {
 }
 
 
+def make_batch_xml(ctx, g, n):
+    docs = []
+    fails = []
+    for _ in range(n):
+        w = World()
+        b = DocBuilder(g, w, malformed=0.0, repeat_id=0.2, xml=True, subtypes=0.3)
+        d, scopes = b.random_document(n_records=g.rng.randint(1, 8))
+        doc = w.conts[d]
+        ft = g.chance(0.5)
+        try:
+            text = doc.serialize(format="xml", force_types=ft)
+        except Exception as e:  # noqa: a name that XML cannot express
+            ctx.count("xml-writer-raised")
+            continue
+        docs.append((w, doc, ft, text))
+        ctx.evaluations += 1
+        if len(doc.records) >= 2:
+            ctx.nontrivial(w.ops)
+    abs_docs = specread.spec_read_xml_texts([t for (_w, _d, _o, t) in docs])
+    for (w, doc, ft, text), got in zip(docs, abs_docs):
+        want = proto.strict_doc(doc)
+        ctx.sample({"xml": text[:200]})
+        if got == want:
+            continue
+        bad = unresolvable(doc)
+        sig = "C10:name-not-resolvable-in-scope" if bad else None
+        if isinstance(got, tuple):
+            why = "spec reader crashed: %s" % (got[1],)
+        elif got is None:
+            why = "the specification reader rejects the emitted PROV-XML (unknown element, unreadable name or children out of schema order)"
+        else:
+            why = "the specification reader recovers different content"
+            for k in sorted(set(want) | set(got)):
+                if want.get(k) != got.get(k):
+                    a, b_ = want.get(k) or [], got.get(k) or []
+                    why += " (bundle %r: missing %s / unexpected %s)" % (k, [x for x in a if x not in b_][:1], [x for x in b_ if x not in a][:1])
+                    break
+        fails.append(Failure("oracle", sig, "xml force_types=%s: %s%s" % (ft, why[:900], (" [unresolvable: %s]" % (bad[:2],)) if bad else ""),
+                             {"ops": list(w.ops), "ft": ft, "format": "xml"}))
+    return fails
+
+
 def make_batch(ctx, g, n):
     docs = []
     fails = []
@@ -74,6 +116,7 @@ def run(ctx):
     while done < total:
         n = min(100, total - done)
         fails.extend(make_batch(ctx, g, n))
+        fails.extend(make_batch_xml(ctx, g, n))
         done += n
     return fails
 
@@ -87,8 +130,12 @@ def replay(ctx, case):
     w = replay_ops(case["ops"])
     d = next(c for c, o in w.conts.items() if o.is_document())
     doc = w.conts[d]
-    text = doc.serialize(format="json", **case.get("opts", {}))
-    got = specread.spec_read_json_texts([text])[0]
+    if case.get("format") == "xml":
+        text = doc.serialize(format="xml", force_types=case.get("ft", False))
+        got = specread.spec_read_xml_texts([text])[0]
+    else:
+        text = doc.serialize(format="json", **case.get("opts", {}))
+        got = specread.spec_read_json_texts([text])[0]
     if got != proto.strict_doc(doc):
         sig = "C10:name-not-resolvable-in-scope" if unresolvable(doc) else None
         return [Failure("oracle", sig, "the specification reader recovers different content", case)]
